@@ -66,6 +66,7 @@ def run(ctx):
                                'Dataset.%s stores self.%s; only the constructor may (column order is normalised there)' % (name, el.attr))
     ctx.floor('stores to Dataset fields', n_owner, 3)
     check_bare_names(ctx)
+    check_size_bare_name(ctx)
     check_sort_and_load(ctx)
 
     # ---- column order on every constructor path ----------------------------------------------------
@@ -557,6 +558,59 @@ def check_bare_names(ctx):
         ctx.ob('bare-name', fi, fi.node, ok,
                '[%s given as %s] the attributes projected onto must be the sequence of names (a bare name wrapped into one element); they are %s'
                % (p, {'strsub': 'a str subclass'}.get(kind, kind), v[1:] if isinstance(v, tuple) else v), construct='argument of Domain.project as %s' % kind)
+
+
+def check_size_bare_name(ctx):
+    """Domain.size(attrs) is also called with ONE attribute name (Domain.sort('size') sorts by `key=self.size`).  The unmodified code hands
+    the argument to Domain.project, which wraps a bare string.  Walking the argument (`for a in attrs`) or testing membership in it
+    (`a in attrs` - a substring test on a string: 'education' is in 'education-num') treats the name as a sequence of characters, unless
+    it happens on a path that has excluded / wrapped a string."""
+    fi = ctx.repo.func(DOM, 'Domain.size')
+    if len(fi.params) < 2:
+        raise AnalysisError('Domain.size lost its attrs parameter')
+    p = fi.params[1]
+
+    def str_test(t):
+        neg = False
+        while isinstance(t, ast.UnaryOp) and isinstance(t.op, ast.Not):
+            t, neg = t.operand, not neg
+        tt = U(t).replace(' ', '')
+        if tt in ('isinstance(%s,str)' % p, 'type(%s)isstr' % p, 'type(%s)==str' % p):
+            return not neg
+        if tt in ('type(%s)isnotstr' % p, 'type(%s)!=str' % p):
+            return neg
+        return None
+    bad = []
+    for x in ast.walk(fi.node):
+        if not (isinstance(x, ast.Name) and x.id == p and isinstance(x.ctx, ast.Load)):
+            continue
+        par = getattr(x, '_parent', None)
+        walked = (isinstance(par, (ast.For, ast.comprehension)) and par.iter is x) or \
+            (isinstance(par, ast.Compare) and x in par.comparators and any(isinstance(o, (ast.In, ast.NotIn)) for o in par.ops)) or \
+            (isinstance(par, ast.Call) and U(par.func) in ('set', 'list', 'tuple', 'sorted', 'frozenset', 'len') and par.args and par.args[0] is x)
+        if not walked:
+            continue
+        excluded = False
+        n_, child = par, x
+        while n_ is not None and n_ is not fi.node:
+            if isinstance(n_, (ast.IfExp, ast.If)):
+                st_ = str_test(n_.test)
+                if st_ is not None:
+                    in_body = child is n_.body or (isinstance(n_.body, list) and any(child is b or any(child is z for z in ast.walk(b)) for b in n_.body))
+                    in_else = child is n_.orelse or (isinstance(n_.orelse, list) and any(child is b or any(child is z for z in ast.walk(b)) for b in n_.orelse))
+                    if (st_ is True and in_else) or (st_ is False and in_body):
+                        excluded = True
+            n_, child = getattr(n_, '_parent', None), n_
+        # re-bound to a wrapped form before this use?
+        rebinds = [a_ for a_ in ast.walk(fi.node) if isinstance(a_, ast.Assign) and any(U(t_) == p for t_ in a_.targets) and a_.lineno < x.lineno]
+        if not excluded and not rebinds:
+            bad.append(par)
+    ctx.ob('bare-name', fi, bad[0] if bad else fi.node, not bad,
+           'Domain.size is also given one attribute NAME (Domain.sort sorts by key=self.size): %s' % (
+               'the argument is only walked / searched where a string has been excluded or wrapped' if not bad else
+               '`%s` walks or searches the argument while it may still be a string - a membership test on a string is a substring test, so the size of '
+               'every attribute whose name is contained in the requested name is multiplied in' % U(bad[0])[:70]),
+           construct='uses of the argument of Domain.size')
 
 
 def check_sort_and_load(ctx):
